@@ -4,6 +4,7 @@ import (
 	"encoding/hex"
 	"fmt"
 	"github.com/keep-network/keep-common/pkg/cache"
+	"github.com/keep-network/keep-core/pkg/internal/verifhook"
 	"math/big"
 	"sync"
 	"time"
@@ -65,6 +66,7 @@ func (d *Deduplicator) NotifyDKGStarted(
 	// If the key is not in the cache, that means the seed was not handled
 	// yet and the client should proceed with the execution.
 	if !d.dkgSeedCache.Has(cacheKey) {
+		verifhook.Point("beacon.NotifyDKGStarted")
 		d.dkgSeedCache.Add(cacheKey)
 		return true
 	}
